@@ -2082,10 +2082,10 @@ impl Compiler {
                 if let Some(local_register) = self.frame().get_local_assigned_register(*id) {
                     // The item to be imported is already locally assigned.
                     if local_register != result_register {
+                        // The caller expects the imported value to be in the result register
+                        self.push_op(Copy, &[result_register, local_register]);
                         if wildcard_import {
-                            self.push_op(ImportAll, &[local_register]);
-                        } else {
-                            self.push_op(Copy, &[result_register, local_register]);
+                            self.push_op(ImportAll, &[result_register]);
                         }
                     }
                     Ok(())
